@@ -453,7 +453,9 @@ class Gen:
         name = self.fresh("f")
         n = r.randint(0, 2)
         params = [self.fresh("a") for _ in range(n)]
-        env = {p: (INT, True) for p in params}
+        # a parameter bound to a literal or a temporary cannot be assigned to: most parameters are read-only for the generator, so that
+        # a call does not end the whole program early
+        env = {p: (INT, r.random() < 0.15) for p in params}
         typed = self.f.get("typed") and r.random() < self.f["typed"]
         decl = [("int " + p if typed and r.random() < 0.6 else p) for p in params]
         if typed:
@@ -520,13 +522,127 @@ class Gen:
             if c < 0.4:
                 stmts.append('try { print(to_string(mp%s["%s"])) } catch(e) { print("no value") }' % (k, key))
             elif c < 0.7:
-                stmts.append('mp%s["%s"] = %d' % (k, key, r.randint(10, 19)))
+                stmts.append('try { mp%s["%s"] = %d } catch(e) { print("no assign") }' % (k, key, r.randint(10, 19)))
             elif c < 0.85:
                 stmts.append('var cp%s%d = mp%s; cp%s%d["%s"] = 77; print(mp%s.size())' % (k, len(stmts), k, k, len(stmts), key, k))
             else:
                 stmts.append("print(mp%s.size()); print(mp%s.empty())" % (k, k))
         self.note("map-family")
         return stmts
+
+    def class_family(self):
+        """script-defined classes: attributes, constructor overloads (typed / guarded / untyped), methods (getters, mutators answering `this`,
+        methods calling methods, typed and guarded overloads), a second class sharing method names, free functions whose parameters are typed
+        with a class (called with objects of either class and with non-objects), copies versus references of objects, attributes created on
+        the spot, functions held in attributes, members that do not exist"""
+        r = self.r
+        k = self.fresh("K")
+        A, B = "Ka%s" % k, "Kb%s" % k
+        two = r.random() < 0.6
+        defs = []
+        # class A
+        body = ["attr v", r.choice(["attr w", "var w"])]
+        ctors = ["def %s() { this.v = %d; this.w = %s }" % (A, r.randint(0, 5), r.choice(['"w"', "[1, 2]", "0"]))]
+        if r.random() < 0.7:
+            ctors.append("def %s(int a) : a > %d { this.v = a; this.w = \"big\" }" % (A, r.randint(3, 8)))
+            self.note("class:guarded-constructor")
+        if r.random() < 0.7:
+            ctors.append("def %s(a) { this.v = %s; this.w = a%s }" % (A, r.choice(["-1", "a", "7"]), r.choice(["", "; return 5"])))
+        r.shuffle(ctors)
+        body += ctors
+        body.append("def gv%s() { this.v }" % k)
+        body.append("def bump%s(%sd) { this.v += d; this }" % (k, r.choice(["", "int "])))
+        body.append('def tag%s() { "%s" }' % (k, A))
+        body.append("def desc%s() { this.tag%s() + \":\" + to_string(this.gv%s()) }" % (k, k, k))
+        if r.random() < 0.5:
+            body.append('def pick%s(int x) { "int" }' % k)
+            body.append('def pick%s(string x) { "string" }' % k)
+            body.append('def pick%s(x) { "any" }' % k)
+            self.note("class:typed-method-overloads")
+        if r.random() < 0.5:
+            body.append('def lvl%s(a) : a > this.v { "above" }' % k)
+            body.append('def lvl%s(a) { "not above" }' % k)
+            self.note("class:guarded-method")
+        defs.append("class %s { %s }" % (A, "; ".join(body)))
+        if two:
+            bb = ["attr v", "attr inner", "def %s() { this.v = %d; this.inner = %s(%d) }" % (B, r.randint(10, 20), A, r.randint(0, 12)),
+                  'def tag%s() { "%s" }' % (k, B), "def gv%s() { this.v * 2 }" % k,
+                  "def mix%s(%s o) { this.v + o.v }" % (k, A), "def mix%s(%s o) { this.v * 100 + o.v }" % (k, B)]
+            defs.append("class %s { %s }" % (B, "; ".join(bb)))
+            self.note("class:two-classes")
+        if r.random() < 0.5:
+            defs.append("def %s::late%s(x) { x + this.v }" % (A, k))
+            self.note("class:method-outside-class")
+        # free functions typed with the classes
+        shows = ['def show%s(%s p) { print("%s " + to_string(p.v)) }' % (k, A, A)]
+        if two and r.random() < 0.7:
+            shows.append('def show%s(%s p) { print("%s " + to_string(p.v)) }' % (k, B, B))
+        if r.random() < 0.8:
+            shows.append('def show%s(p) { print("other") }' % k)
+        r.shuffle(shows)
+        defs += shows
+        self.note("class:class-typed-parameter")
+        # statements
+        st = []
+        o1, o2 = "oa%s" % k, "ob%s" % k
+        has_any = any(c.startswith("def %s(a) " % A) for c in ctors)
+        has_int = any(c.startswith("def %s(int a)" % A) for c in ctors)
+        st.append("var %s = %s(%s)" % (o1, A, r.choice(["", "2", "20", '"s"', "[3]"] if has_any else (["", "20", "20"] if has_int else [""]))))
+        if r.random() < 0.5:
+            st.append('try { print(%s(%s).v) } catch(e) { print("no constructor") }' % (A, r.choice(["2", "20", '"s"', "1, 2"])))
+            self.note("class:constructor-selection")
+        st.append("print(%s.desc%s())" % (o1, k))
+        if two:
+            st.append("var %s = %s()" % (o2, B))
+            st.append("print(%s.tag%s() + to_string(%s.gv%s()))" % (o2, k, o2, k))
+        objs = [o1] + ([o2] if two else [])
+        pool = []
+        for _ in range(r.randint(3, 8)):
+            c = r.random()
+            o = r.choice(objs)
+            if c < 0.15:
+                a = r.choice(objs + ["4", '"s"', "true", "[1]", "%s.v" % o1])
+                pool.append("try { show%s(%s) } catch(e) { print(\"no show\") }" % (k, a))
+            elif c < 0.27:
+                q = self.fresh("cp")
+                pool.append("var %s = %s; %s.v = 99; print(%s.v); print(%s.v)" % (q, o, q, o, q))
+                self.note("class:copy-then-mutate")
+            elif c < 0.36:
+                q = self.fresh("rf")
+                pool.append("auto &%s = %s; %s.v = 55; print(%s.v)" % (q, o, q, o))
+                self.note("class:reference")
+            elif c < 0.46:
+                pool.append("%s.bump%s(%s); print(%s.gv%s())" % (o1, k, r.choice(["1", "3", "(1 + 1)"]), o1, k))
+                pool.append("print(%s.bump%s(1).bump%s(2).v)" % (o1, k, k))
+            elif c < 0.55:
+                pool.append("%s.extra = %s; print(%s.extra)" % (o, r.choice(["5", '"e"', "[1, 2]"]), o))
+                self.note("class:attribute-created-on-the-spot")
+            elif c < 0.65:
+                pool.append("%s.fn = fun(a) { a + this.v }; print(%s.fn(%d))" % (o, o, r.randint(0, 5)))
+                pool.append("try { print(%s.fn()) } catch(e) { print(\"fn arity\") }" % o)
+                self.note("class:function-in-attribute")
+            elif c < 0.73:
+                pool.append("try { print(%s.nothere%s(1)) } catch(e) { print(\"no member\") }" % (o, k))
+                pool.append("try { print(%s.v(1)) } catch(e) { print(\"not a function\") }" % o)
+                pool.append("print(%s.v())" % o)
+                self.note("class:missing-member")
+            elif c < 0.8:
+                pool.append("print(gv%s(%s)); print(tag%s(%s))" % (k, o, k, o))
+                self.note("class:method-as-function")
+            elif c < 0.88 and two:
+                a = r.choice(objs + ["3"])
+                pool.append("try { print(%s.mix%s(%s)) } catch(e) { print(\"no mix\") }" % (o2, k, a))
+                pool.append("try { print(%s.mix%s(%s)) } catch(e) { print(\"wrong class\") }" % (o1, k, o2))
+                pool.append("%s.inner.v = 41; print(%s.inner.gv%s())" % (o2, o2, k))
+            elif c < 0.94:
+                pool.append('try { print(%s.pick%s(%s)) } catch(e) { print("no pick") }' % (o1, k, r.choice(["1", '"s"', "true", o1])))
+                pool.append('try { print(%s.lvl%s(%d)) } catch(e) { print("no lvl") }' % (o1, k, r.randint(0, 30)))
+            else:
+                pool.append("try { print(%s.late%s(3)) } catch(e) { print(\"no late\") }" % (o, k))
+                pool.append("try { def %s::tag%s() { \"again\" } } catch(e) { print(\"redefined\") }" % (A, k))
+        st += pool
+        self.note("class-family")
+        return defs, st
 
     def overload_family(self):
         """one name, overloads that differ in declared parameter types (and an untyped catch-all), defined in random order, called with each kind of value"""
@@ -556,6 +672,10 @@ class Gen:
             self.pending_calls = c
         if self.f.get("maps") and r.random() < self.f["maps"]:
             self.pending_calls = getattr(self, "pending_calls", []) + self.map_family()
+        if self.f.get("classes") and r.random() < self.f["classes"]:
+            d, c = self.class_family()
+            parts += d
+            self.pending_calls = getattr(self, "pending_calls", []) + c
         if self.f.get("loops") and r.random() < self.f["loops"]:
             d, c = self.loop_families()
             parts += d
